@@ -18,6 +18,7 @@ type Env struct {
 	heap    *Heap
 	old     *Heap
 	pre     *Heap // state just before a call (callsite clauses); nil otherwise
+	preResolve func(name string, h *Heap) (Val, bool) // locals as they were in the `pre` state (loop steps: at the loop head)
 	results []Val
 	pkg     *types.Package
 	pc      *PkgContracts
@@ -784,6 +785,9 @@ func (g *Gen) evalCall(x *ECall, env *Env) Val {
 		}
 		n := *env
 		n.heap = env.pre
+		if env.preResolve != nil {
+			n.resolve = env.preResolve
+		}
 		return g.eval(x.Args[0], &n)
 	case "cur":
 		id, ok := x.Args[0].(*EIdent)
